@@ -242,6 +242,20 @@ def no_decision_on_defaults(ctx: Ctx):
                         hits.append((name.split("@")[0], s_))
         return hits
 
+    KIND_READERS = ("lcm.functools.allow_only_kwargs", "lcm.functools.allow_args")  # they convert between calling conventions
+
+    def scan_kind(frames):
+        hits = []
+        for name, fr in sorted(frames.items()):
+            if any(name.split("@")[0] == k or name.startswith(k + ".") for k in KIND_READERS):
+                continue
+            for t in frame_terms(fr) + loop_terms(prog, fr):
+                for s_ in walk(t):
+                    if s_[0] == "attr" and s_[2] == "kind" and any(
+                            callee_name(x) == "inspect.signature" or x[0] == "bv" for x in walk(s_[1])):
+                        hits.append((name.split("@")[0], s_))
+        return hits
+
     frames = {n: f for n, f in all_frames(prog, include_extra=True).items() if not n.startswith("lcmref")}
     own = [(n, s_) for n, s_ in scan({n: f for n, f in frames.items() if not n.startswith("lcmfix")})]
     ctl = scan({n: f for n, f in frames.items() if n.startswith("lcmfix")})
@@ -256,6 +270,22 @@ def no_decision_on_defaults(ctx: Ctx):
         ctx.ob(f"DEFAULTS:{n.removeprefix('lcm.')}", False, prog.where(s_),
                f"{n} looks at the default value of a user function's argument ({show(s_)[:60]}): arguments with a default are treated "
                "differently from the others (dropped from the parameter template / not required / bound differently)", lhs=s_)
+    kown = scan_kind({n: f for n, f in frames.items() if not n.startswith("lcmfix")})
+    kctl = scan_kind({n: f for n, f in frames.items() if n.startswith("lcmfix")})
+    if not kctl:
+        ctx.undecided("DEFAULTS:positive-control:kind", "the scan no longer flags the fixture's use of Parameter.kind")
+    ctx.count("positive_controls_flagged", len(kctl))
+    kseen = set()
+    for n, s_ in kown:
+        if n in kseen:
+            continue
+        kseen.add(n)
+        ctx.ob(f"KIND:{n.removeprefix('lcm.')}", False, prog.where(s_),
+               f"{n} looks at the kind of a user function's argument ({show(s_)[:60]}): keyword-only (or positional-only) arguments are "
+               "treated differently from the others; only allow_args / allow_only_kwargs, which convert calling conventions, may do so",
+               lhs=s_)
+    if not kown:
+        ctx.ob("DEFAULTS:no-decision-on-kind", True, "", "outside lcm.functools no lcm function reads Parameter.kind")
     if not own:
         ctx.ob("DEFAULTS:no-decision-on-defaults", True, "", "no lcm function reads Parameter.default / Parameter.empty: every argument "
                "of a user function is treated alike")
